@@ -9,7 +9,8 @@ from mc import transports as TR
 from mc.explore import Chooser, Cut
 from mc.runner import Acc
 
-SCENARIOS = ['eof-sticky', 'timeout0', 'timeout-small', 'timeout-listed', 'pending-beats-eof', 'eof-listed', 'closed-object-message']
+SCENARIOS = ['eof-sticky', 'timeout0', 'timeout-small', 'timeout-listed', 'pending-beats-eof', 'eof-listed', 'closed-object-message',
+             'dead-child-silent-tty']
 
 
 def tasks(tier):
@@ -130,6 +131,27 @@ def run_case(task, scen, entry):
                     viol = ('exception', 'close() raised %r' % (e,))
             if viol is None:
                 viol = must_raise(TIMEOUT, [S('nomatch')], -0.5, S('q'))
+        elif scen == 'dead-child-silent-tty':
+            # the child is gone but the terminal is neither readable nor hung up (something else still holds
+            # the slave side): the stream has ended, whatever the timeout of the call that notices it
+            if link.proc is None or not task['transport'].startswith('pty'):
+                return {'skipped': True}, None
+            link.now_w(b'q')
+            link.proc.on_death = None
+            link.now_exit(0)
+            for n, T in enumerate((0.3, 0, 0.3, 0) if entry != 'expect_list' else (0, 0, 0.3)):
+                t0 = env.now()
+                r = call([S('zz'), TIMEOUT, EOF], T)
+                if n == 0 and T == 0 and r == 1 and sp.before == S('q'):
+                    # a poll that had something to read may use up its time; the next one finds the end
+                    r = call([S('zz'), TIMEOUT, EOF], T)
+                if r != 2 or sp.after is not EOF:
+                    viol = ('dead-child-not-eof', 'child dead, terminal silent, timeout %r: returned index %r (after=%r, before=%r), expected EOF'
+                            % (T, r, sp.after, sp.before))
+                    break
+                if env.now() - t0 > 0.35:
+                    viol = ('eof-slow', 'took %.3fs' % (env.now() - t0))
+                    break
         elif scen == 'eof-listed':
             link.now_w(b'q')
             link.now_exit(0)
@@ -200,8 +222,8 @@ def run_task(task):
             acc.transitions += 1
             acc.nontrivial += 1
             acc.outcomes['B:%s:%s' % (scen, 'viol' if viol else 'ok')] += 1
-            if not viol:
-                acc.flags[{'closed-object-message': 'timeout_raised', 'eof-sticky': 'after_eof_again', 'timeout0': 'timeout_raised', 'timeout-small': 'timeout_raised',
+            if not viol and not obs.get('skipped'):
+                acc.flags[{'dead-child-silent-tty': 'dead_child_silent_tty', 'closed-object-message': 'timeout_raised', 'eof-sticky': 'after_eof_again', 'timeout0': 'timeout_raised', 'timeout-small': 'timeout_raised',
                            'timeout-listed': 'timeout_index', 'pending-beats-eof': 'pending_beats_marker', 'eof-listed': 'eof_index'}[scen]] += 1
             if viol:
                 acc.violation('B:%s:%s:%s:%s' % (task['transport'], entry, scen, viol[0]), viol[1],
